@@ -496,40 +496,44 @@ def genHc (c : Config) : Option S_cmd_upstreamHealthcheckConfig :=
   if c.pHc then some { DomainTmpl := c.hcTmpl, Interval := ⟨c.hcIvl⟩, Timeout := ⟨c.hcTimeout⟩,
                        BackoffDuration := ⟨c.hcBackoff⟩, Enabled := c.hcEnabled } else none
 
-theorem healthcheck_total (x : Option S_cmd_upstreamHealthcheckConfig) :
-    upstreamHealthcheckConfig_validate x ≠ none := by
+theorem healthcheck_total (x : Option S_cmd_upstreamHealthcheckConfig) (vt : Option String) :
+    upstreamHealthcheckConfig_validate x vt ≠ none := by
   cases x with
   | none => simp [upstreamHealthcheckConfig_validate]
   | some s => unfold upstreamHealthcheckConfig_validate; tr_norm; repeat' split
               all_goals simp
 
-/-- Accepted ⇔ disabled, or a non-empty domain template and three positive durations. -/
-theorem healthcheck_accepts (s : S_cmd_upstreamHealthcheckConfig) :
-    upstreamHealthcheckConfig_validate (some s) = some none ↔
+/-- Accepted ⇔ disabled, or a non-empty domain template, three positive durations and (since the C17
+repair) a template from which `forward.ValidateHealthcheckDomainTmpl` (`vt`, its result) can make a valid
+probe name. -/
+theorem healthcheck_accepts (s : S_cmd_upstreamHealthcheckConfig) (vt : Option String) :
+    upstreamHealthcheckConfig_validate (some s) vt = some none ↔
       (s.Enabled = true → s.DomainTmpl ≠ "" ∧ 0 < s.Interval.Duration ∧ 0 < s.Timeout.Duration ∧
-        0 < s.BackoffDuration.Duration) := by
+        0 < s.BackoffDuration.Duration ∧ vt = none) := by
   unfold upstreamHealthcheckConfig_validate; tr_norm
-  repeat' split
+  cases vt <;> repeat' split
   all_goals simp_all
-  tr_close
+  all_goals tr_close
 
-/-- Whenever the model's `valUpstream` accepts, the translated health-check validator accepts. -/
+/-- Whenever the model's `valUpstream` accepts (and the template validator does), the translated
+health-check validator accepts. -/
 theorem healthcheck_tr (c : Config) (h : valUpstream c = []) :
-    upstreamHealthcheckConfig_validate (genHc c) = some none := by
+    upstreamHealthcheckConfig_validate (genHc c) none = some none := by
   unfold genHc
   simp only [valUpstream, sect_eq_nil, firstOf_cons_eq_nil, firstOf_nil, and_true] at h
   obtain ⟨_, _, _, _, _, hp, hh⟩ := h
   simp only [hp, ↓reduceIte, healthcheck_accepts]
   intro he; simp [he] at hh; simpa using hh
 
-/-- The health-check part of the model (the last element of `valUpstream`) is exactly the translated validator. -/
+/-- The health-check part of the model (the last element of `valUpstream`) is exactly the translated validator
+(for a template the probe-name validator accepts). -/
 theorem healthcheck_tr_iff (c : Config) :
     sect c.pHc .upHc
         [ if c.hcEnabled then
             firstOf [ (if c.hcTmpl = "" then [(.upHcTmpl, .empty)] else []),
                       pos .upHcIvl c.hcIvl, pos .upHcTimeout c.hcTimeout, pos .upHcBackoff c.hcBackoff ]
           else [] ] = [] ↔
-      upstreamHealthcheckConfig_validate (genHc c) = some none := by
+      upstreamHealthcheckConfig_validate (genHc c) none = some none := by
   unfold genHc
   cases hp : c.pHc
   · simp [upstreamHealthcheckConfig_validate]
@@ -933,7 +937,7 @@ theorem missing_reported :
     ratelimitQUICConfig_validate none = some (some "no value") ∧
     allowListConfig_validate none = some (some "no value") ∧ rateLimitConfig_validate none = some (some "no value") ∧
     dnsConfig_validate none = some (some "no value") ∧ dnsDBConfig_validate none = some (some "no value") ∧
-    upstreamHealthcheckConfig_validate none = some (some "no value") ∧
+    upstreamHealthcheckConfig_validate none none = some (some "no value") ∧
     fltRuleListCache_validate none = some (some "no value") ∧ filtersConfig_validate none = some (some "no value") ∧
     queryLogConfig_validate none = some (some "no value") ∧ geoIPConfig_validate none = some (some "no value") ∧
     accessConfig_validate none = some "no value" ∧ safeBrowsingConfig_validate none = some (some "no value") ∧
